@@ -1,5 +1,6 @@
 import Rp2.Proofs.IniValid
 import Rp2.Model.Cli
+import Rp2.Proofs.CliFiles
 /-! The configuration file in the whole-run model: a file that `configparser` refuses or that `Configuration.__init__` rejects ends the run
 with a non-zero status before anything is read or written; the early rejections agree with `Cli.run`. -/
 namespace Rp2.Cli
@@ -54,5 +55,120 @@ theorem runIni_bad_config (o : Options) (ini : Option (List Ini.Section)) (grids
 theorem runIni_accepted (o : Options) (secs : List Ini.Section) (grids : List (String × List (List Cell))) (hp : preConfig o = none)
     (c : Ini.IniConfig) (hc : Ini.ofIni secs = .ok c) : runIni o (some secs) grids = runCells { o with cfgSched := c.methods } c.cfg grids := by
   unfold runIni; simp only [hp, hc]
+
+end Rp2.Cli
+
+namespace Rp2.Cli
+open Rp2
+
+theorem runCellsWith_files (o : Options) (cfg : Config) (lookup : String → Option (List (List Cell))) :
+    ∀ f ∈ (runCellsWith o cfg lookup).files, ∃ m base, f.1 = fileName o.pfx m base := by
+  unfold runCellsWith
+  simp only
+  split
+  · split
+    · intro f hf; simp [reject] at hf
+    · exact run_files o _ _ _ _
+  · exact run_files o _ _ _ _
+
+/-- **C18 (writes) for the run from the configuration file and the workbook**: whatever the configuration, the options and the cells, every
+    file the model writes is named `<prefix><method or "mixed">_<generator>.ods` -/
+theorem runIni_files (o : Options) (ini : Option (List Ini.Section)) (grids : List (String × List (List Cell))) :
+    ∀ f ∈ (runIni o ini grids).files, ∃ m base, f.1 = fileName o.pfx m base := by
+  unfold runIni
+  cases hp : preConfig o with
+  | some r => intro f hf; rw [(preConfig_rejects o r hp).2] at hf; cases hf
+  | none =>
+    simp only
+    cases ini with
+    | none => intro f hf; simp [reject] at hf
+    | some secs =>
+      simp only
+      cases hc : Ini.ofIni secs with
+      | error e => intro f hf; simp [reject] at hf
+      | ok c =>
+        simp only
+        have := runCellsWith_files { o with cfgSched := c.methods } c.cfg (fun a => (grids.find? (·.1 == a)).map (·.2))
+        exact this
+
+end Rp2.Cli
+
+namespace Rp2.Cli
+open Rp2
+
+theorem computeAll_no_sheets (o : Options) (acctName : Nat → String) (period : Nat) (sched : List (Int × Method)) (names : List String)
+    (hn : names ≠ []) : ∃ e, computeAll o acctName period sched names [] = .error e := by
+  cases names with
+  | nil => exact absurd rfl hn
+  | cons a t => exact ⟨s!"sheet {a} missing", by simp [computeAll, List.mapM_cons, bind, Except.bind]⟩
+
+theorem foldlM_nil_names_ok (cfg : Config) (lookup : String → Option (List (List Cell))) (names : List String) (e : String)
+    (h : names.foldlM (parseStep cfg lookup) ([], 0) = .error e) : names ≠ [] := by
+  intro hn; subst hn; simp [pure, Except.pure] at h
+
+/-- **C12 for the workbook**: if any sheet to process is missing or fails to parse (any documented row or structure fault), the run ends
+    with a non-zero exit status and writes nothing -/
+theorem runCellsWith_bad_sheet (o : Options) (cfg : Config) (lookup : String → Option (List (List Cell))) (e : String)
+    (h : parseAll o cfg lookup = .error e) :
+    (runCellsWith o cfg lookup).exit ≠ 0 ∧ (runCellsWith o cfg lookup).files = [] := by
+  have hnames : assetNames o cfg.assets ≠ [] := by
+    unfold parseAll at h
+    cases hf : (assetNames o cfg.assets).foldlM (parseStep cfg lookup) ([], 0) with
+    | ok r => rw [hf] at h; simp [Except.map] at h
+    | error e' => exact foldlM_nil_names_ok cfg lookup _ e' hf
+  have hfault : OptionFault o (acctNameOf cfg) cfg.assets [] := by
+    unfold OptionFault
+    split
+    · trivial
+    · rename_i name iso period defMethod methods gens defLang hc
+      refine Or.inr (Or.inr (Or.inr (Or.inr ?_)))
+      split
+      · trivial
+      · rename_i sched hs
+        exact Or.inr (Or.inr (computeAll_no_sheets o (acctNameOf cfg) period sched _ hnames))
+  have hpre := run_fault_rejected o (acctNameOf cfg) (holderOfAcct cfg) cfg.assets [] hfault
+  unfold runCellsWith
+  rw [h]
+  simp only
+  split
+  · exact ⟨by simp [reject], rfl⟩
+  · exact hpre
+
+end Rp2.Cli
+
+namespace Rp2.Cli
+open Rp2
+
+theorem foldlM_error_of_bad_member {σ : Type} (step : σ → String → Except String σ) (a : String)
+    (hbad : ∀ acc, ∃ e, step acc a = .error e) : ∀ (names : List String) (acc : σ), a ∈ names → ∃ e, names.foldlM step acc = .error e := by
+  intro names
+  induction names with
+  | nil => intro acc h; cases h
+  | cons x t ih =>
+    intro acc h
+    simp only [List.foldlM_cons, bind, Except.bind]
+    cases hs : step acc x with
+    | error e => exact ⟨e, rfl⟩
+    | ok acc' =>
+      rcases List.mem_cons.mp h with rfl | h'
+      · obtain ⟨e, he⟩ := hbad acc; rw [he] at hs; cases hs
+      · exact ih acc' h'
+
+/-- a sheet that is missing, or that `parseSheet` rejects (whatever the artificial-id counter), among the assets to process makes the
+    whole run fail before anything is computed or written -/
+theorem bad_sheet_rejected (o : Options) (cfg : Config) (lookup : String → Option (List (List Cell))) (a : String)
+    (ha : a ∈ assetNames o cfg.assets)
+    (hbad : lookup a = none ∨ ∃ g, lookup a = some g ∧ ∀ base, ∃ e, parseSheet cfg a (acctOf cfg) g base = .error e) :
+    (runCellsWith o cfg lookup).exit ≠ 0 ∧ (runCellsWith o cfg lookup).files = [] := by
+  have hstep : ∀ acc, ∃ e, parseStep cfg lookup acc a = .error e := by
+    intro acc
+    unfold parseStep
+    rcases hbad with h | ⟨g, hg, hp⟩
+    · simp only [h]; exact ⟨_, rfl⟩
+    · simp only [hg]
+      obtain ⟨e, he⟩ := hp acc.2
+      simp only [he]; exact ⟨_, rfl⟩
+  obtain ⟨e, he⟩ := foldlM_error_of_bad_member (parseStep cfg lookup) a hstep _ ([], 0) ha
+  exact runCellsWith_bad_sheet o cfg lookup e (by unfold parseAll; rw [he]; rfl)
 
 end Rp2.Cli
